@@ -54,6 +54,19 @@ CHECKS = {
              'changes are restrictions, outer-before-inner order, partial defaults are the bound value of the own name).',
         note='displayed default/annotation values.',
         design='DESIGN.md section 3 (C10), appendix B7/B8'),
+    'C05': dict(
+        technique=TECH + 'meta-analysis of the AST visitor: handler exhaustiveness against the running interpreter\'s grammar (ASDL metadata), guard-table conformance on enumerated paths',
+        text='Decides the structural clauses C05.R1-R8 (binder / parameter-field / scope exhaustiveness, evaluation order of '
+             'comprehensions and loop back-edges, visit_Name/taint/deferred-call tables, star extraction, callee resolution order, '
+             'untranslatable calls abort discovery): necessary conditions of discovery soundness over all programs.',
+        note='anything about executed programs; that the resolved object is the one called at run time.',
+        design='DESIGN.md section 3 (C05), appendix B10-B12, B16'),
+    'C06': dict(
+        technique=TECH + 'positional-protocol agreement (Call record, hint triple) and argument-flow rules on enumerated paths; exception-escape analysis for the fallback',
+        text='Decides the structural clauses C06.R1-R6 (Call protocol, translation into forwards(), skip and fallback, hint '
+             'protocol, method/partial routes, extraction of every forwarding call).',
+        note='equality of discovered and declared signatures over a program grammar; invariance under source transformations.',
+        design='DESIGN.md section 3 (C06)'),
     'C07': dict(
         technique=TECH + 'interprocedural exception-escape analysis over the resolved call graph (with conditional re-raise specialisation), path enumeration of the fallback chain, call-cycle detection',
         text='Decides the structural clauses C07.R1-R6 (fallback discipline and containment of internal signals, stage order and '
@@ -61,6 +74,18 @@ CHECKS = {
              'result type). C07.R3 is a recorded known finding (D17).',
         note='"only narrows the def parameter list", totality over the standard-library corpus, implicit TypeError/KeyError of dynamically typed values.',
         design='DESIGN.md section 3 (C07)'),
+    'C11': dict(
+        technique=TECH + 'class-protocol (slot completeness), argument-flow and decision-table rules on enumerated paths',
+        text='Decides the structural clauses C11.R1-R4 (slot completeness of replace/__init__, pairing of raw and upgraded '
+             'annotation, evaluation context of postponed annotations and the upgrade table, annotate wraps with preevaluated).',
+        note='the eager-vs-postponed metamorphic equality (needs evaluation).',
+        design='DESIGN.md section 3 (C11)'),
+    'C14': dict(
+        technique=TECH + 'class-protocol rules: guard dominance in __eq__, __hash__ presence, slot completeness and selection coherence of replace(), inherited-method inventory',
+        text='Decides the structural clauses C14.R1-R4 (__eq__ totality and symmetric slot comparison, hashability, replace '
+             'returns the upgraded type and keeps the extras, nothing else overridden).',
+        note='reflexivity/symmetry/hash-consistency as value laws beyond the guards.',
+        design='DESIGN.md section 3 (C14)'),
     'C15': dict(
         technique=TECH + 'interprocedural exception-escape analysis (explicit raises/asserts, vetted external raisers), handler-wrapping and validating-construction rules',
         text='Decides the structural clauses C15.R1-R5 (fold steps wrapped by ValueError -> IncompatibleSignatures, explicit raises '
@@ -69,6 +94,19 @@ CHECKS = {
         note='absence of implicit exception types (KeyError, TypeError, RecursionError) from dynamically typed expressions; '
              'well-formedness of values beyond "built by the validating constructor".',
         design='DESIGN.md section 3 (C15)'),
+    'C16': dict(
+        technique=TECH + 'provenance/alias domain with interprocedural mutates-parameter and returns-alias summaries; typestate and exception-edge analysis of the delete/restore window',
+        text='Decides the structural clauses C16.R1-R4 (inputs not mutated, results do not share provenance maps, foreign '
+             'attribute writes only inside the verified window with per-key typestate and restoration on every exit, recursion '
+             'guard emptied in a finally with the same key).',
+        note='what outside code called during retrieval does; deep-snapshot equality.',
+        design='DESIGN.md section 3 (C16)'),
+    'C17': dict(
+        technique=TECH + 'static race argument: temporary-mutation windows x receiver provenance (created-here / thread-local / caller-owned / shared), fail-closed inventory of shared mutable state',
+        text='Decides the structural clauses C17.R1-R2 (no mutate/restore window on an object other threads can reach; inventory '
+             'of shared mutable state equals the reviewed list). The window on the inspected function is a recorded known finding (D6).',
+        note='everything about actual schedules; benign races on caches.',
+        design='DESIGN.md section 3 (C17)'),
     'C19': dict(
         technique=TECH + 'sibling cross-check of the two partial branches (argument flow into _mask), partial column of the mask table, effect ordering',
         text='Decides the structural clauses C19.R1-R4 (both partial branches call _mask with the same shape, partial rows of the '
